@@ -145,6 +145,7 @@ def run(PID, level, families, args, rule, bounds, outside, assumptions, sample_s
         print('INCONCLUSIVE property=%s setup/run failed: %s' % (PID, e))
         ev.cov['explanation'] = 'failed: %s' % e
         ev.cov['evaluations'] = 1
+        ev.cov['samples'] = [{'setup_failure': str(e)[:300]}]
         ev.write()
         return 2
     nsamp = {}
